@@ -14,6 +14,8 @@ pub struct Corpus {
     pub entries: Vec<Entry>,
     pub list_actions: Vec<String>,
     pub atoms: Vec<String>,
+    /// names of defcfg options: string literals of parser/src/cfg/defcfg.rs that look like one
+    pub defcfg_options: Vec<String>,
     /// (file name, content) of files that sample configs include
     pub side_files: Vec<(String, String)>,
 }
@@ -225,6 +227,14 @@ fn load() -> Corpus {
         }
     }
     // list action names
+    let mut defcfg_options: Vec<String> = vec![];
+    if let Ok(src) = std::fs::read_to_string(repo.join("parser/src/cfg/defcfg.rs")) {
+        for lit in rust_string_literals(&src) {
+            if lit.len() >= 4 && lit.len() < 60 && lit.contains('-') && lit.chars().all(|c| c.is_ascii_lowercase() || c.is_ascii_digit() || c == '-') && !defcfg_options.contains(&lit) {
+                defcfg_options.push(lit);
+            }
+        }
+    }
     let mut list_actions = vec![];
     if let Ok(src) = std::fs::read_to_string(repo.join("parser/src/cfg/list_actions.rs")) {
         for lit in rust_string_literals(&src) {
@@ -255,6 +265,7 @@ fn load() -> Corpus {
     Corpus {
         entries,
         list_actions,
+        defcfg_options,
         atoms,
         side_files,
     }
